@@ -17,10 +17,12 @@ from .. import argguard, core, motlutil, parsers
 from ..motlutil import FIELDS
 
 HOLE = 1000000          # wire code of the missing value (EmMotlIO.tla HoleCode)
+NUMBASE = 2000000       # wire code NUMBASE + n of the small integer n written by a public method (EmMotlIO.tla NumBase)
 PROPS = ["C01_FileLayout", "C01_RoundTrip", "C01_OrderIrrelevantStep", "C01_PathsAgree", "C01_WriteKeepsTable",
-         "C01_ResultsPersist"]
+         "C01_ResultsPersist", "C01_ObjectsIndependent"]
 INVS = ["TypeOK", "C01_OrderIrrelevant", "C01_Idempotent"]
 ALL_OPS = ["swap", "write_motl", "write_emmotl", "load", "adopt", "droprow", "duprows"]
+DERIVE_OPS = ["derive", "edit_derived", "edit_source", "write_derived"]
 ALL_HDR = ["absent", "none", "empty", "other"]
 IO_OPS = ["write_motl", "write_emmotl", "load"]
 
@@ -52,19 +54,21 @@ def cfg(canon, init, ops, pos, depth, mode, writer="byname", emit=False, invs=Tr
     if invs:
         lines += ["INVARIANT %s" % i for i in INVS]
     lines += ["PROPERTY %s" % p for p in props]
-    if route:
+    if route == "derive":
+        lines += ["ACTION_CONSTRAINT DeriveOnly"]
+    elif route:
         lines += ["ACTION_CONSTRAINT RouteOnly"]
     if emit:
         lines += ["ACTION_CONSTRAINT EmitStep"]
     if mode == "hist":
-        lines += ["CONSTRAINT EmitRouteHist" if route else "CONSTRAINT EmitHist"]
+        lines += ["CONSTRAINT EmitDeriveHist" if route == "derive" else "CONSTRAINT EmitRouteHist" if route else "CONSTRAINT EmitHist"]
     elif view:
         lines += ["VIEW View"]
     return "\n".join(lines) + "\n"
 
 
 # ---- interpretation gamma ------------------------------------------------------------------------
-def token_values(vseed, ntok, int_tokens=(), zero_tokens=()):
+def token_values(vseed, ntok, int_tokens=(), zero_tokens=(), fixed=None):
     """token id -> float64; distinct tokens have distinct, non-zero float32 images.  int_tokens get integer values
     (identifiers, also beyond 2^24 and 2^31); zero_tokens are 0.0 / -0.0 (an all-zero row; no distinctness there)."""
     rng = random.Random(vseed)
@@ -74,7 +78,11 @@ def token_values(vseed, ntok, int_tokens=(), zero_tokens=()):
     rng.shuffle(ipool)
     vals = {}
     seen = {0.0}
+    fixed = fixed or {}
     for t in range(1, ntok + 1):
+        if t in fixed:
+            vals[t] = float(fixed[t])              # identifier values set on purpose (0, large consecutive, == count)
+            continue
         if t in zero_tokens:
             vals[t] = 0.0 if t % 2 else -0.0
             continue
@@ -101,6 +109,8 @@ def token_values(vseed, ntok, int_tokens=(), zero_tokens=()):
 def interp(w, vals):
     if w == HOLE:
         return float("nan")
+    if w >= NUMBASE:
+        return float(w - NUMBASE)
     if w > 0:
         return vals[w]
     if w < 0:
@@ -119,11 +129,11 @@ def ntokens(obj):
         if rows is not None:
             for r in rows:
                 for w in r:
-                    if w != HOLE:
+                    if abs(w) < HOLE:
                         m = max(m, abs(w))
         if flat is not None:
             for w in flat:
-                if w != HOLE:
+                if abs(w) < HOLE:
                     m = max(m, abs(w))
     return m
 
@@ -324,11 +334,35 @@ def special_tokens(tbl, variant):
     if variant % 5 == 4:
         for row in tbl["cells"]:
             for i, w in enumerate(row):
-                if order[i] in motlutil.ID_COLUMNS and w != HOLE and w != 0:
+                if order[i] in motlutil.ID_COLUMNS and abs(w) < HOLE and w != 0:
                     ints.add(abs(w))
     if variant % 11 == 0 and tbl["cells"]:
-        zeros = {abs(w) for w in tbl["cells"][variant % len(tbl["cells"])] if w != HOLE and w != 0}
+        zeros = {abs(w) for w in tbl["cells"][variant % len(tbl["cells"])] if abs(w) < HOLE and w != 0}
     return ints, zeros
+
+
+def id_values(tbl, variant):
+    """Dimension 'identifier values': token -> value for identifier columns set on purpose in a share of the cases:
+    a tomo_id column that is 0 throughout; subtomogram numbers that are large and consecutive (100000, 100001, ...);
+    subtomogram numbers starting at 0 (the row index) with an object number equal to the particle count."""
+    order = list(tbl["order"])
+    n = len(tbl["cells"])
+    fixed = {}
+
+    def col(name, f):
+        i = order.index(name)
+        for r, row in enumerate(tbl["cells"]):
+            if abs(row[i]) < HOLE and row[i] != 0:
+                fixed[abs(row[i])] = f(r)
+    mode = variant % 13
+    if mode == 0:
+        col("tomo_id", lambda r: 0)
+    elif mode == 1:
+        col("subtomo_id", lambda r: 100000 + r)
+    elif mode == 2:
+        col("subtomo_id", lambda r: r)
+        col("object_id", lambda r: n)
+    return fixed
 
 
 def run_transition(ctx, tr, variant, vseed):
@@ -337,7 +371,8 @@ def run_transition(ctx, tr, variant, vseed):
     case = {"kind": "transition", "pre": tr["pre"], "op": tr["op"], "post": tr["post"], "variant": variant,
             "vseed": vseed}
     ints, zeros = special_tokens(tr["pre"]["tbl"], variant) if "tbl" in tr["pre"] else (set(), set())
-    vals = token_values(vseed, max(ntokens(tr["pre"]), ntokens(tr["post"])), ints, zeros)
+    fixed = id_values(tr["pre"]["tbl"], variant) if "tbl" in tr["pre"] else {}
+    vals = token_values(vseed, max(ntokens(tr["pre"]), ntokens(tr["post"])), ints, zeros, fixed)
     path = tmp_path(ctx, "tr")
     path2 = path + ".second.em"
     for f in (path, path2):
@@ -412,11 +447,15 @@ def run_behaviour(ctx, hist, variant, vseed):
     ntok = 0
     for st in hist:
         ntok = max(ntok, ntokens(st["post"]))
-    vals = token_values(vseed, ntok)
+    vals = token_values(vseed, ntok, fixed=id_values(hist[0]["post"]["tbl"], variant))
     path = tmp_path(ctx, "bh")
     if os.path.exists(path):
         os.remove(path)
     cur = hist[0]["post"]["tbl"]
+    if variant % 4 == 3 and any(st["op"]["name"] == "edit_source" for st in hist):
+        # Motl(df) keeps the caller's DataFrame object: an in-place edit of that list needs a writeable table (the
+        # read-only storage form is for the calls of the property - construct, write, load - only)
+        variant += 1
     df0 = build_table(cur, vals, variant)
     motl, err = core.call_guarded(cryomotl.Motl, df0)
     if err is not None:
@@ -424,6 +463,7 @@ def run_behaviour(ctx, hist, variant, vseed):
         ctx.ran(case)
         return
     loaded = None
+    derived = None
     held = []            # (step, table object returned by an earlier load, copy taken when it was returned)
     adopted = False
     for i, st in enumerate(hist[1:], start=1):
@@ -481,6 +521,42 @@ def run_behaviour(ctx, hist, variant, vseed):
             why = guard.changed()
             if why:
                 ctx.fail("C01_WriteKeepsTable", "step %d: writing changed the list - %s" % (i, why), case, dict(sig, argument_modified=True))
+                break
+        elif op == "derive":
+            # a second list object made from the list at hand
+            form = st["op"]["form"]
+            if form == "emmotl_of_emmotl" and not isinstance(motl, cryomotl.EmMotl):
+                motl = cryomotl.EmMotl(motl.df)           # (the copy constructor takes an EmMotl: the list at hand becomes one)
+            fn = {"emmotl_of_emmotl": lambda: cryomotl.EmMotl(motl), "load_object": lambda: cryomotl.Motl.load(motl),
+                  "emmotl_of_table": lambda: cryomotl.EmMotl(motl.df)}[form]
+            derived, err = core.call_guarded(fn)
+            sig["form"] = form
+            if err is not None:
+                ctx.fail("call_raises", "step %d derive (%s): %s" % (i, form, err), case, sig)
+                break
+            if not check_table(ctx, derived.df, post["der"], vals, case, sig, "C01_ObjectsIndependent") or \
+                    not check_table(ctx, motl.df, post["tbl"], vals, case, sig, "C01_ObjectsIndependent"):
+                break
+        elif op in ("edit_derived", "edit_source"):
+            target = derived if op == "edit_derived" else motl
+            kind = st["op"]["kind"]
+            _, err = core.call_guarded((lambda: target.renumber_particles()) if kind == "renumber" else
+                                       (lambda: target.fill({"class": 5})))
+            sig["kind"] = kind
+            if err is not None:
+                ctx.fail("call_raises", "step %d %s (%s): %s" % (i, op, kind, err), case, sig)
+                break
+            cur = post["tbl"]
+            # the edited object holds the edit, the other object is what it was (no shared state)
+            if not check_table(ctx, motl.df, post["tbl"], vals, case, dict(sig, object="source"), "C01_ObjectsIndependent") or \
+                    not check_table(ctx, derived.df, post["der"], vals, case, dict(sig, object="derived"), "C01_ObjectsIndependent"):
+                break
+        elif op == "write_derived":
+            _, err = core.call_guarded(lambda: (derived if isinstance(derived, cryomotl.EmMotl) else cryomotl.EmMotl(derived.df)).write_out(path_arg(st["op"], path)))
+            if err is not None:
+                ctx.fail("call_raises", "step %d write_derived: %s" % (i, err), case, sig)
+                break
+            if not check_file(ctx, path, post["disk"], vals, case, sig):
                 break
         elif op == "load":
             loaded, err = core.call_guarded(do_load, path, variant + i, st["op"])
@@ -606,6 +682,12 @@ def run(ctx):
             raise core.MachineryError("negative control: the positional writer satisfies the C01 clauses - they are vacuous")
         ctx.extra["negative_control_violates"] = sorted(set(res.violated))
 
+    if not only or "small" in only:
+        # a second object derived from the list, edits of either, writes of either (C01_ObjectsIndependent)
+        ctx.tlc("MC_EmMotlIO", cfg("Canon4", "DeriveSmallInit", ["write_emmotl", "load"] + DERIVE_OPS, "AllPos", ctx.pick(4, 5), "none",
+                                   hdrs=["absent"]), name="small_derive", env=env0, workers=4)
+        ctx.exhaustive["L1_derive_depth%d" % ctx.pick(4, 5)] = True
+
     n_tr = 0
     # ---- L2: the small scope lifted to the 20 real fields, every transition replayed
     if not only or "lift" in only:
@@ -664,7 +746,7 @@ def run(ctx):
                 c["n"] = 4
                 c["holes"] = [h for h in c["holes"] if h[0] <= 4]
         ps, _ = write_params(ctx, "sim", sim_cases=sim_cases)
-        res = ctx.tlc("MC_EmMotlIO", cfg("Canon20", "SimInit", ALL_OPS, "SimPos", 8, "hist", invs=False, pfs=("str", "path"),
+        res = ctx.tlc("MC_EmMotlIO", cfg("Canon20", "SimInit", ALL_OPS + DERIVE_OPS, "SimPos", 8, "hist", invs=False, pfs=("str", "path"),
                                          tss=("emmotl", "EMMOTL", "EmMotl"), lts=("omitted", "emmotl")), name="sim",
                       env={"C01_PARAMS": ps}, simulate=nsim, depth=10, seed=ctx.seed + 1, workers=1)
         # the everyday route: load a list, go on with the loaded object, filter / extend it, let it write itself
@@ -672,10 +754,18 @@ def run(ctx):
         res2 = ctx.tlc("MC_EmMotlIO", cfg("Canon20", "SimInit", ["write_emmotl", "load", "adopt", "droprow", "duprows"],
                                           "SimPos", 5, "hist", invs=False, hdrs=["absent"], route=True, pfs=("path",)), name="route",
                        env={"C01_PARAMS": ps}, workers=1)
+        # derive a second object (three forms), edit one of the two through a public method, write one of the two, load
+        pd_, _ = write_params(ctx, "derive", sim_cases=sim_cases[:ctx.pick(5, 60)])
+        res3 = ctx.tlc("MC_EmMotlIO", cfg("Canon20", "SimInit", ["write_emmotl", "load"] + DERIVE_OPS, "SimPos", 4, "hist",
+                                          invs=False, hdrs=["absent"], route="derive"), name="derive",
+                       env={"C01_PARAMS": pd_}, workers=1)
+        if len(res3.records) < 20:
+            raise core.MachineryError("derive run produced only %d behaviours" % len(res3.records))
+        ctx.extra["behaviours_derive_edit_write"] = len(res3.records)
         seen = set()
         nb = 0
         routes = 0
-        for rec in res.records + res2.records:
+        for rec in res.records + res2.records + res3.records:
             h = rec["hist"]
             key = core.stable_hash(h)
             if key in seen:
